@@ -7,6 +7,8 @@ import lxml.etree as ET
 from harness.core import hx, unhx, parse_sx, sx
 from harness import xser, xbuild, defgen, genutil, pktutil as pu
 
+from harness.props import c09
+
 ID = "C01"
 REQUIRED_THEOREMS = ["end_to_end", "per_packet", "field_seam", "undefined_packets"]
 RULE = ("requests `genxml <xml> <definition> - <opts> <skip> <kind> <r> (<chunks>)`: random XTCE documents over the whole "
@@ -36,7 +38,14 @@ def make_doc(rng):
         obj.date = "2024-01-01T00:00:00"
         xml = ET.tostring(obj.to_xml_tree(), pretty_print=True, xml_declaration=True, encoding="utf-8")
         loaded = definitions.XtcePacketDefinition.from_xtce(io.BytesIO(xml))
-    return d, xml, sx(xser.definition(loaded))
+    # the reference definition is the generator's own (objects built from its syntax), NOT what the library's loader
+    # made of the document: a loader that misreads the document then disagrees with the model instead of feeding it
+    ref, got = sx(xser.definition(obj)), sx(xser.definition(loaded))
+
+    def canon(text):
+        t = parse_sx(c09.norm_num(text))[0]
+        return sx([t[0], t[1], sorted(t[2], key=lambda c: c[1])])      # the container table's order is a traversal artefact
+    return d, xml, (got if canon(ref) == canon(got) else ref)
 
 
 def generate(rng, tier):
